@@ -114,3 +114,12 @@ func init() {
 		mutant{Name: "map-entry-of-a-multiple-assignment-set-on-its-temporary", Prop: "C04", File: "interp/run.go", Old: "\tif isMapEntry(n) {\n\t\tm, k := genValue(n.child[0]), genValue(n.child[1])\n\t\treturn func(f *frame, v reflect.Value) { m(f).SetMapIndex(k(f), v) }\n\t}\n", New: "", Rule: "R04.15", Key: "assignFromCall/map-entry-set-in-its-map"},
 	)
 }
+
+func init() {
+	addMutants(
+		// D84-D86 reverted
+		mutant{Name: "switch-tag-after-an-init-statement-not-wired", Prop: "C01", File: "interp/cfg.go", Old: "\t\t\t} else {\n\t\t\t\twireSwitchHeader(n, sbn.start)\n\t\t\t}\n", New: "\t\t\t} else {\n\t\t\t\tn.child[0].tnext = sbn.start\n\t\t\t}\n", Rule: "R01.28", Key: "cfg/case:switchStmt/header-chained-as-a-whole"},
+		mutant{Name: "labels-of-case-bodies-not-declared", Prop: "C01", File: "interp/cfg.go", Old: "\t\tcase caseBody:\n\t\t\t// The body of a case clause is a block: it can define labels too.\n\t\t\tdeclareLabels(sc, n)\n\n", New: "", Rule: "R01.29", Key: "cfg/pre-order:caseBody/labels-declared"},
+		mutant{Name: "map-key-evaluated-while-assigning", Prop: "C04", File: "interp/run.go", Old: "\t\t\tif ivalue[i] != nil {\n\t\t\t\tmaps[i].SetMapIndex(keys[i], t[i]) // Assign a map entry\n", New: "\t\t\tif j := ivalue[i]; j != nil {\n\t\t\t\td(f).SetMapIndex(j(f), t[i]) // Assign a map entry\n", Rule: "R04.16", Key: "assign/closure"},
+	)
+}
